@@ -23,10 +23,16 @@ func kindOf(t compile.TypeSpec) string {
 	return ""
 }
 
+// identity, when set (during Dump), is told every named type a rendering refers to.
+var identity func(t compile.TypeSpec)
+
 // TypeRepr renders a linked type.
 func TypeRepr(t compile.TypeSpec) string {
 	if t == nil {
 		return "<nil>"
+	}
+	if identity != nil {
+		identity(t)
 	}
 	switch s := t.(type) {
 	case *compile.ListSpec:
@@ -63,7 +69,33 @@ func ValRepr(v compile.ConstantValue, depth int) string {
 	case compile.ConstReference:
 		return ValRepr(c.Target.Value, depth+1)
 	case compile.EnumItemReference:
+		if identity != nil {
+			identity(c.Enum)
+		}
 		return fmt.Sprintf("item:%s:%s.%s=%d", c.Enum.File, c.Enum.Name, c.Item.Name, c.Item.Value)
+	case *compile.ConstantStruct:
+		var names []string
+		for n := range c.Fields {
+			names = append(names, n)
+		}
+		sort.Strings(names)
+		var xs []string
+		for _, n := range names {
+			xs = append(xs, n+"="+ValRepr(c.Fields[n], depth+1))
+		}
+		return "struct{" + strings.Join(xs, ";") + "}"
+	case compile.ConstantMap:
+		var xs []string
+		for _, kv := range c {
+			xs = append(xs, ValRepr(kv.Key, depth+1)+":"+ValRepr(kv.Value, depth+1))
+		}
+		return "map{" + strings.Join(xs, ",") + "}"
+	case compile.ConstantSet:
+		var xs []string
+		for _, x := range c {
+			xs = append(xs, ValRepr(x, depth+1))
+		}
+		return "set[" + strings.Join(xs, ",") + "]"
 	case compile.ConstantList:
 		var xs []string
 		for _, x := range c {
@@ -78,6 +110,17 @@ func ValRepr(v compile.ConstantValue, depth int) string {
 func Dump(m *compile.Module) string {
 	var lines []string
 	seen := map[string]*compile.Module{}
+	// every named type / parent service a rendering refers to must be the very
+	// object its own module holds (a file compiled twice yields look-alike copies)
+	var refs []compile.TypeSpec
+	var parents []*compile.ServiceSpec
+	identity = func(t compile.TypeSpec) {
+		switch t.(type) {
+		case *compile.TypedefSpec, *compile.EnumSpec, *compile.StructSpec:
+			refs = append(refs, t)
+		}
+	}
+	defer func() { identity = nil }()
 	var walk func(m *compile.Module)
 	walk = func(m *compile.Module) {
 		if prev, ok := seen[m.ThriftPath]; ok {
@@ -121,6 +164,7 @@ func Dump(m *compile.Module) string {
 			par := "<nil>"
 			if s.Parent != nil {
 				par = s.Parent.File + ":" + s.Parent.Name
+				parents = append(parents, s.Parent)
 			}
 			var fns []string
 			for fname, fn := range s.Functions {
@@ -142,6 +186,32 @@ func Dump(m *compile.Module) string {
 		}
 	}
 	walk(m)
+	flagged := map[string]bool{}
+	for _, t := range refs {
+		key := t.ThriftFile() + ":" + t.ThriftName()
+		if flagged[key] {
+			continue
+		}
+		mod := seen[t.ThriftFile()]
+		if mod == nil {
+			flagged[key] = true
+			lines = append(lines, "FOREIGN-TYPE "+key+" (its file is not among the compiled modules)")
+		} else if own, ok := mod.Types[t.ThriftName()]; !ok || own != t {
+			flagged[key] = true
+			lines = append(lines, "COPIED-TYPE "+key+" (the reference does not point at the definition its module holds)")
+		}
+	}
+	for _, ps := range parents {
+		key := ps.File + ":" + ps.Name
+		if flagged["svc "+key] {
+			continue
+		}
+		mod := seen[ps.File]
+		if mod == nil || mod.Services[ps.Name] != ps {
+			flagged["svc "+key] = true
+			lines = append(lines, "COPIED-SERVICE "+key+" (the parent reference does not point at the service its module holds)")
+		}
+	}
 	sort.Strings(lines)
 	return strings.Join(lines, "\n")
 }
